@@ -1319,7 +1319,7 @@ class Translator:
         def ret_call(e):
             if not (e[0] == "call" and e[1][0] == "id" and e[1][1] in VEC):
                 oog("return of eval_prox_grad_step is not a call of a translated step function")
-            f = self.steps.get(e[1][1])
+            f = self.steps.get(e[1][1]) or STEP_SIGS.get(e[1][1])    # a callee that fell back to its reference keeps its signature
             if f is None or len(f["params"]) != len(e[2]):
                 oog("callee %s" % e[1][1])
             out = []
@@ -1468,10 +1468,14 @@ class Translator:
                     if b in bases and bases[b] != (off, ln):
                         oog("two different blocks of %s in one expression" % b)
                     bases[b] = (off, ln)
-                if set(bases) != {"lb", "ub", "y"}:
-                    oog("multiplier expression does not use blocks of D.lowerbound, D.upperbound and y")
-                if bases["y"] != (toff, tlen):
+                if not set(bases) <= {"lb", "ub", "y"}:
+                    oog("multiplier expression uses an unexpected vector")
+                if bases.get("y", (toff, tlen)) != (toff, tlen):
                     oog("source and target blocks of y differ")
+                for b in ("lb", "ub", "y"):        # a vector the expression does not read: any block of the right length will do
+                    if b not in bases:
+                        bases[b] = (toff, tlen)
+                        u.notes.append("the expression assigned to %s does not read %s" % (s[1][1], b))
                 t = ev.S(ev.ev(s[3], elem_env(used)))
                 named = emit(t, u.notes)
                 sl = " ".join("(vslice %s %s %s)" % (bases[b][0], bases[b][1], b) for b in ("lb", "ub", "y"))
@@ -1720,6 +1724,13 @@ class Translator:
         return u
 
 
+_K = {"C": "box", "γ": "scal", "x": "vec", "grad_ψ": "vec", "x̂": "out", "p": "out"}
+STEP_SIGS = {
+    "eval_proj_grad_step_box": dict(params=[(n, "") for n in ("C", "γ", "x", "grad_ψ", "x̂", "p")], kinds=_K),
+    "eval_prox_grad_step_box_l1": dict(params=[(n, "") for n in ("C", "λ", "γ", "x", "grad_ψ", "x̂", "p")], kinds=dict(_K, λ="vec")),
+    "eval_prox_grad_step_box_l1_scal": dict(params=[(n, "") for n in ("C", "λ", "γ", "x", "grad_ψ", "x̂", "p")], kinds=dict(_K, λ="scal")),
+}
+
 PER_ELEM_SIG = {
     "g_proj_step1": "(lb ub : option T) (γ x g : T) : T",
     "g_prox_step_l1_1": "(lb ub : option T) (λ γ x g : T) : T",
@@ -1735,7 +1746,7 @@ UNIT_NAMES = {"project": "project", "dist": "dist_squared", "proj_grad_step": "p
 
 def render_unit(u, status):
     L = ["  (* BEGIN %s [%s] *)" % (u.name, status), "  (* C++: %s *)" % u.cpp]
-    for n in u.notes:
+    for n in sorted(set(u.notes), key=u.notes.index):
         L.append("  (* note: %s *)" % n.replace("*)", "* )").replace("(*", "( *"))
     for gn, sig, body in u.defs:
         L.append("  Definition %s %s :=\n    %s." % (gn, sig, body))
